@@ -9,6 +9,7 @@ skoolkit.ctlparser.CtlParser, skoolkit.disassembler.Disassembler, skoolkit.snask
 skoolkit.skool2bin.BinWriter.  E2E (props/c01_e2e.py): random images x random well-formed control files x option
 grid through sna2skool.main -> skool2bin.main, byte compare outside ignored blocks."""
 import os
+import traceback
 
 from framework import fresh_import
 from props import c01_corr as C
@@ -50,7 +51,7 @@ WITNESSES = [
 
 
 def replay_data(case):
-    return {'kind': 'e2e', 'case': {k: case[k] for k in ('org', 'data', 'args', 'ctl', 'ignored', 'lo', 'hi', 'features')}}
+    return {'kind': 'e2e', 'case': {k: case[k] for k in ('org', 'data', 'args', 'ctl', 'ignored', 'lo', 'hi', 'features', 'rst_config') if k in case}}
 
 
 def report(chk, mods, case, res):
@@ -98,6 +99,8 @@ def correspondence(chk, m):
 
 def run_groups(chk, groups):
     all_ops = [op for g in groups for op in g[1]]
+    if not all_ops:
+        return
     model = chk.run_driver('C01', all_ops)
     if model is None:
         return
@@ -132,9 +135,26 @@ def e2e(chk, m):
             chk.case('witness', ('witness', name), {'witness': name, 'result': res[0] if res else 'lossless'})
             if res:
                 chk.violation(res[0], res[1], replay_data(case))
+        for name, case in E.directed_cases():
+            res = E.check_case(mods, chk.scratch, case)
+            chk.case('directed', ('directed', name), None)
+            if res:
+                chk.violation(res[0], f'directed case {name}: ' + res[1], replay_data(case))
         skipped = 0
+        gen_errors = 0
         for n in range(chk.scale(3600, 30000)):
-            case = E.gen_case(rng, (m['snaskool'],), big=chk.thorough and n % 50 == 0)
+            try:
+                case = E.gen_case(rng, (m['snaskool'],), big=chk.thorough and n % 50 == 0)
+            except Exception as e:
+                # the generator sizes instructions with the real Disassembler: an exception there is a defect of the
+                # code under test, not of the harness (recorded as a break; the run goes on)
+                gen_errors += 1
+                if gen_errors == 1:
+                    chk.breaks.append({'kind': 'generator', 'name': 'e2e case generator (real Disassembler used to find instruction boundaries)',
+                                       'detail': ''.join(traceback.format_exception_only(type(e), e))[:400] + traceback.format_exc()[-800:]})
+                if gen_errors > 200:
+                    break
+                continue
             res = E.check_case(mods, chk.scratch, case)
             tag = 'e2e-' + case['mode']
             if case['ignored'] and case['ignored'][0][1] < case['hi']:
@@ -167,7 +187,11 @@ def run(chk):
                 'data sub-block loop; disassemble walk near 65536 with Wrap/RST handlers; BinWriter on small skool files with @org, blank i lines, '
                 'unassemblable lines; ctl -> all instructions. e2e: run-structured images (code-like, text-like, constant runs) at 64K/0/random '
                 'origins x well-formed control files built tiling-first (all block types, sub-blocks, sublengths, multipliers, loops, M/N splits, '
-                'ignored blocks, -s/-e) or none or -d x options (-H -l -w -r DefbSize DefmSize DefwSize Opcodes Wrap Text InstructionWidth Semicolons). '
+                'ignored blocks, -s/-e, varied directive/address separators) or none or -d x options (-H -l -w -r DefbSize DefmSize DefwSize Opcodes Wrap Text '
+                'InstructionWidth Semicolons); directed deterministic groups on every seed: every opcode slot of the seven decoder tables x '
+                '{-H,-l,Opcodes=ALL} x two operand pairs, with -r, and under every code base prefix (b c d h n + two-letter); every RST opcode with a byte and '
+                'with a word argument (RSTHandlerConfig through a skoolkit.ini in the scratch directory), also cut by the 64K boundary; every byte value in '
+                'DEFB/DEFM/DEFW/DEFS under every data base prefix x {-H,-l}. An overlap warning excuses a mismatch only at the end of the range. '
                 'non-trivial = distinct op text / distinct (image, ctl, options)')
     chk.trusted += ['hand models lean/SkoolVerif/Model/{CtlTiling,CtlLex,Statements,BinWriter}.lean tied by correspondence (harness/props/c01_corr.py)',
                     'instruction decoding and operand text <-> bytes (C02/C07): enters the theorems as the hypothesis AsmOk / a length oracle',
@@ -185,7 +209,12 @@ def run(chk):
     chk.audit(PROPS)
     if chk.thorough and ok:
         chk.leanchecker([PROPS])
-    groups = correspondence(chk, m)
+    try:
+        groups = correspondence(chk, m)
+    except Exception as e:
+        # the real code raised where the model has no such branch: a correspondence break, not a harness failure
+        chk.breaks.append({'kind': 'correspondence', 'name': 'real code raised ' + type(e).__name__, 'detail': traceback.format_exc()[-1200:]})
+        groups = []
     run_groups(chk, groups)
     rt_ops, rt_impl = e2e(chk, m)
     if rt_ops:
